@@ -924,7 +924,12 @@ def remap_by_types(
                 (ast.literal_eval(f), self.lookup_type(v))  # type: ignore
                 for f, v in zip(t_node.keys, t_node.values)
             ]
-            dict_dataclass = make_dataclass("dict_dataclass", fields)
+            try:
+                dict_dataclass = make_dataclass("dict_dataclass", fields)
+            except (TypeError, ValueError):
+                # Keys that cannot be dataclass field names (not identifiers, keywords,
+                # repeated): nothing is recorded and the dictionary has an unknown type.
+                return t_node
 
             self._found_types[t_node] = dict_dataclass
             return t_node
